@@ -741,6 +741,10 @@ where
     VL: Decode,
 {
     fn decode_with_param(bits: &usize, bytes: &mut Cursor<&[u8]>) -> Result<Self, CodecError> {
+        // There is always a leaf level, so there is no public share for zero bits.
+        if *bits == 0 {
+            return Err(CodecError::UnexpectedValue);
+        }
         let packed_control_len = bits.div_ceil(4);
         let mut packed_control_bits = vec![0u8; packed_control_len];
         bytes.read_exact(&mut packed_control_bits)?;
